@@ -198,3 +198,55 @@ def random_spec(rng, fluid=None, nj=None, name=None):
         rng.shuffle(order)
         spec["jorder"] = order
     return spec
+
+
+def random_heat_spec(rng, name=None):
+    """district-heating style tree fed at junction 0 (temperature-fixing ext grid), random pipe orientation, sections,
+    heat-transfer coefficients, optionally one heat exchanger in a branch and one extra pipe closing a loop; sinks at
+    the leaves so that every branch carries flow"""
+    nj = rng.choice([3, 4, 5])
+    elems = [E("ext_grid", j=0, type="pt")]
+    children = {j: [] for j in range(nj)}
+    for j in range(1, nj):
+        p = rng.randrange(0, j)
+        children[p].append(j)
+        f, to = (p, j) if rng.random() < 0.6 else (j, p)
+        if rng.random() < 0.2 and not any(e["t"] == "heat_exchanger" for e in elems):
+            elems.append(E("heat_exchanger", f=f, to=to, qext_w=rng.choice([4000.0, -2500.0])))
+        else:
+            elems.append(E("pipe", f=f, to=to, u=rng.choice([3.0, 5.0, 8.0]), sections=rng.choice([1, 1, 2, 3]),
+                           length_km=rng.choice([0.3, 0.5, 0.8])))
+    if nj >= 4 and rng.random() < 0.5:
+        a, b = rng.sample(range(1, nj), 2)
+        elems.append(E("pipe", f=a, to=b, u=4.0, length_km=0.6))
+    leaves = [j for j in range(1, nj) if not children[j]]
+    for j in leaves:
+        elems.append(E("sink", j=j, mdot=rng.choice([0.3, 0.5, 0.8])))
+    if rng.random() < 0.4:
+        inner = [j for j in range(1, nj) if children[j]]
+        if inner:
+            elems.append(E("sink", j=rng.choice(inner), mdot=0.2))
+    return {"name": name or "rand_heat", "fluid": "water", "nj": nj, "elems": elems}
+
+
+def random_loop_spec(rng, name=None):
+    """circulation-pump loop with 1-3 parallel consumers of random specification modes, optionally a heat exchanger
+    (random orientation) and a flow controller in a further parallel branch"""
+    modes = ["qe_mf", "mf_dt", "mf_tr", "qe_dt", "qe_tr"]
+    elems = [E("circ_pump_pressure", ret=3, flow=0), E("pipe", f=0, to=1, u=rng.choice([3.0, 5.0])),
+             E("pipe", f=2, to=3, u=rng.choice([3.0, 5.0]), sections=rng.choice([1, 2]))]
+    n = rng.choice([1, 2, 3])
+    chosen = [rng.choice(modes) for _ in range(n)]
+    if not any(m in ("qe_mf", "mf_dt", "mf_tr") for m in chosen):
+        chosen[0] = "qe_mf"
+    for m in chosen:
+        kw = {"qe_mf": dict(mdot=rng.choice([0.5, 1.0]), qext_w=rng.choice([8000.0, 20000.0, -3000.0])),
+              "mf_dt": dict(mdot=rng.choice([0.5, 1.0]), deltat_k=rng.choice([10.0, 20.0])),
+              "mf_tr": dict(mdot=rng.choice([0.5, 1.0]), treturn_k=rng.choice([285.0, 300.0])),
+              "qe_dt": dict(qext_w=rng.choice([8000.0, 20000.0]), deltat_k=rng.choice([10.0, 20.0])),
+              "qe_tr": dict(qext_w=rng.choice([8000.0, 20000.0]), treturn_k=rng.choice([285.0, 300.0]))}[m]
+        elems.append(E("heat_consumer", f=1, to=2, **kw))
+    if rng.random() < 0.4:
+        f, to = (1, 2) if rng.random() < 0.5 else (2, 1)
+        elems.append(E("heat_exchanger", f=f, to=to, qext_w=rng.choice([5000.0, 9000.0])))
+    return {"name": name or "rand_loop", "fluid": "water", "nj": 4, "elems": elems}
